@@ -10,6 +10,39 @@ TECH = ("bounded symbolic execution of the real Go code (go/ssa interpreter with
 
 # property -> (claimed?, level text, level note, design ref) ; unclaimed -> reason
 CLAIMED = {
+    "C01": dict(
+        text="Bounded model checking of GetMessage, FetchNextMessageFrame and HandleMessages on fully symbolic buffers/streams "
+             "(quick: buffers <= 14 B, one stream step from any reachable push-back state over <= 10 B, whole streams <= 7 B; thorough 40/16/10): "
+             "every typed message without error is exactly one frame per an independent specification (preamble, reserved bits, non-zero length == payload size, CRC-24Q over the exact linear CRC model) and its type is the first 12 payload bits.",
+        note="exact GF(2)-linear CRC-24Q model validated per run against the dependency's Hash interpreted from source; streams/buffers longer than the bound are outside the claim (the one-step harness is inductive over calls).",
+        ref="DESIGN.md section 6, C01"),
+    "C02": dict(
+        text="For all streams within the bound the solver shows the delivered raw bytes concatenate to the input, no message is empty, "
+             "the output is closed exactly once (a missing close is a deadlock of the draining harness), and one FetchNextMessageFrame step from "
+             "any reachable push-back state delivers a non-empty prefix and leaves exactly the remainder (inductive step).",
+        note="as C01; channel capacities/timings are not varied here (HandleMessages is one sequential process; see C09 for schedules).",
+        ref="DESIGN.md section 6, C02"),
+    "C03": dict(
+        text="Segment shapes enumerated (<= 3 segments of junk 1..3 B / frames with payload 1,2,3,5 B, truncated tail at every cut; long frames 255/256/1023 B; thorough: payload 1..12, junk 1..8, 257/1022), contents symbolic "
+             "(all 4096 types, every CRC value, 0xD3 inside payload/CRC): exactly one message per segment, in order, with exactly its bytes and type.",
+        note="shapes outside the enumerated family are outside the claim; CRC model as C01.",
+        ref="DESIGN.md section 6, C03"),
+    "C07": dict(
+        text="Every Go safety condition (index, slice bounds, nil dereference, division, type assertion, channel misuse), every deadlock and every unwinding-limit hit is an obligation on the "
+             "framing paths over arbitrary buffers/streams (GetMessage <= 14 B, stream step <= 10 B, stream <= 7 B; thorough 40/16/10) followed by String() at both log levels; "
+             "decoder paths on CRC-valid frames of each decodable type are added by the C07 B harnesses.",
+        note="fmt/hex/time internals are stubs that never panic; inputs beyond the bounds are outside the claim.",
+        ref="DESIGN.md section 6, C07"),
+    "C08": dict(
+        text="Integer kernels (aggregate range / phase range / rate, MSM4 and MSM7, invalid markers, MSM4-vs-MSM7 agreement) decided exactly over the whole field domain as bit-vector queries; "
+             "the floating-point tails are shown identical, term for term, to the standard's formula applied to the same exact integer; the wavelength table for all four constellations and all 2^64 signal ids.",
+        note="'to within floating-point rounding' and the %.3f rendering are argued from the exactness of the integer (< 2^41), not solver-checked; FP obligations are decided by syntactic identity or refuted by evaluation under solver models.",
+        ref="DESIGN.md section 6, C08"),
+    "C12": dict(
+        text="C03's segment family with one victim frame whose payload+CRC bytes are XOR-ed with a symbolic difference assumed (through the exact CRC model) to break the CRC: "
+             "the victim is delivered as one non-RTCM message with exactly its bytes and every other segment exactly as before.",
+        note="as C03.",
+        ref="DESIGN.md section 6, C12"),
     "C14": dict(
         text="For every width 1..64 (signed 2..64) and every bit position 0..15 (thorough: 0..135) the solver shows, over ALL "
              "buffer contents, that unsigned/signed extraction returns exactly the addressed bits, reads no byte past the "
@@ -17,6 +50,11 @@ CLAIMED = {
         note="go/ssa translation + my interpreter (validated per run by replaying path models natively); z3 5.1.0; "
              "positions >= 136 are outside the bound (the function depends on the position only through i/8 and i%8).",
         ref="DESIGN.md section 6, C14"),
+    "C20": dict(
+        text="One symbolic int (all 2^64 values) through MSM4/MSM7/MSM/GetConstellation/GetTitleAndComment, and one symbolic 12-bit type inside a CRC-valid header-sized frame through GetMessage, "
+             "GetMSMHeader, both decoder families, Analyse and String at both log levels: the classifications agree with the documented table for every value; exhaustive.",
+        note="titles: non-emptiness only.",
+        ref="DESIGN.md section 6, C20"),
 }
 
 NOT_APPLICABLE = {
